@@ -65,15 +65,58 @@ def identity_rules(rep, ctx, mod, prefix=""):
             else:
                 rep.ok(rid2, "count starts at 0", None, where)
             continue
-        e = M.match(("bin", "add", ("bind", "f", ("phi",)), ("bind", "n")), s, {})
-        good = False
-        if e is not None:
+        def step_ok(v, depth=0):
+            """v = f + n where n bytes were written at buf + f: by the memcpy, or by a run of the decoder writing straight into the
+            caller's buffer (its result, with at least max_read bytes of room left there), f being the loop-carried count or itself
+            such a step"""
+            e = M.match(("bin", "add", ("bind", "f"), ("bind", "n")), v, {})
+            if e is None or depth > 4 or e["f"][0] != "v":
+                return False
+            fd = fn.defn(e["f"])
+            if fd is None or fd.is_param or not (fd.op == "phi" or step_ok(e["f"], depth + 1)):
+                return False
+            dv = fn.defn(v)
             for c in copies:
                 if M.match(("gep", ("param", 1), [("inst", e["f"][1])]), c.ops[0], {}) is not None and M.strip(c.ops[2]) == e["n"] \
-                        and fn.dominates(c.block.id, fn.defn(s).block.id):
-                    good = True
-        rep.check(rid2, good, "count update = count + bytes where memcpy(buf + count, ..., bytes)", fn.defn(s).where() if fn.defn(s) else where,
-                  describe(fn, s), function=fn.cname, obj="count-step")
+                        and fn.dominates(c.block.id, dv.block.id):
+                    return True
+            r = fn.defn(M.strip(e["n"]))
+            if r is not None and not r.is_param and r.op == "call" and not r.callee and len(r.ops) >= 2 and fn.dominates(r.block.id, dv.block.id) \
+                    and M.match(("gep", ("param", 1), [("inst", e["f"][1])]), r.ops[1], {}) is not None \
+                    and M.match(("load", ("field", "LHADecoderType", "read", ANY)), r.calleev, {}) is not None:
+                # the room is measured against the loop's own limit (the clamped request: `count < limit` is the loop condition)
+                limits = [M.strip(f_[2]) for f_ in F.at_inst(r) if f_[0] == "ult" and f_[2][0] == "v" and fn.defn(M.strip(f_[1])) is not None
+                          and getattr(fn.defn(M.strip(f_[1])), "op", "") == "phi"]
+                mr = ("load", ("field", "LHADecoderType", "max_read", ANY))
+                for L in limits:
+                    room = ("bin", "sub", ("inst", L[1]), ("inst", e["f"][1]))
+                    for f_ in F.at_inst(r):
+                        if (f_[0] == "uge" and M.match(room, f_[1], {}) is not None and M.match(mr, f_[2], {}) is not None) or \
+                                (f_[0] == "ule" and M.match(mr, f_[1], {}) is not None and M.match(room, f_[2], {}) is not None):
+                            return True
+            return False
+        rep.check(rid2, step_ok(s), "count update = count + bytes where memcpy(buf + count, ..., bytes) (or a decoder run into buf + count with max_read bytes of room)",
+                  fn.defn(s).where() if fn.defn(s) else where, describe(fn, s), function=fn.cname, obj="count-step")
+    # a run of the decoder that delivers nothing ends the stream for good: the sticky failure flag is set on every path from there
+    rid3 = rep.rule(prefix + "R1c", "every run of the decoder (dtype->read) whose result is 0 is followed by decoder_failed = 1 on every path to the return", 1)
+    runs = [c for c in fn.insts() if c.op == "call" and not c.callee and M.match(("load", ("field", "LHADecoderType", "read", ANY)), c.calleev, {}) is not None]
+    rep.check(rid3, len(runs) >= 1, "decoder runs found", where, "%d" % len(runs), function=fn.cname, obj="runs")
+    setf = [st for st in stores_to_field(mod, DEC, "decoder_failed", [fn]) if is_const(st.ops[0]) and const_val(st.ops[0]) not in (0, None)]
+    cutf = set()
+    for st in setf:
+        cutf |= {(st.block.id, x) for x in st.block.succs} | ({(st.block.id, "ret")} if not st.block.succs else set())
+    for r in runs:
+        zero = set(F.edges_with_fact(("eq", ("inst", r.id), 0)))
+        if any(M.strip(st_.ops[0]) == ("v", r.id) for st_ in stores_to_field(mod, DEC, "outbuf_len", [fn])):
+            # the result is kept in outbuf_len and tested there (possibly after the paths with and without a refill have merged)
+            from ..rules import blocks_reachable_from
+            after_r = blocks_reachable_from(fn, [r.block.id]) | {r.block.id}
+            zero |= {e_ for e_ in F.edges_with_fact(("eq", dfield("outbuf_len"), 0)) if e_[0] in after_r}
+        bad = [e_ for e_ in zero if not any(st.block.id == e_[1] for st in setf) and
+               any((rt.block.id, "ret") not in cutf and (rt.block.id == e_[1] or F.reaches_avoiding(e_[1], rt.block.id, cutf)) for rt in rr)]
+        rep.check(rid3, bool(zero) and not bad, "run at %s: a zero result leads to decoder_failed = 1" % r.where().split(" ")[0], r.where(),
+                  "the result is never compared with 0" if not zero else ("the return is reachable from the zero-result edge bb%s->bb%s without setting the flag: a later read would run the decoder again" % bad[0] if bad else None),
+                  function=fn.cname, obj="sticky-%d" % r.id)
     # other stores through buf? none: buf is written only by that memcpy
     for i in fn.insts():
         if i.op == "store":
